@@ -11,7 +11,13 @@ def _stamp(particles, valid_gids):
         ids = np.arange(k, k + n, dtype=np.int64)
         k += n
         pa.add_property('ident', type='long', data=ids if n else None)
-        if valid_gids and n:
+        if valid_gids == 2 and n:
+            # user-assigned gids in an order of their own for most particles, the default (invalid) gid for the others
+            g = pa.get('gid', only_real_particles=False)
+            vals = ((ids * 7919) % 100003).astype(np.uint32)
+            keep = (ids % 5) != 0
+            g[keep] = vals[keep]
+        elif valid_gids and n:
             pa.get('gid', only_real_particles=False)[:] = ids.astype(np.uint32)
         pa.add_output_arrays(['ident'])
     return particles
